@@ -196,6 +196,17 @@ func (p *clientStreamProcessorFMP4) processSegment(ctx context.Context, seg *seg
 			}
 
 			partTrackCount++
+
+			// chPartTrackProcessed can hold a limited number of completion signals.
+			// wait for the entries pushed so far before pushing further ones,
+			// otherwise track processors and this routine block each other.
+			if partTrackCount == cap(p.chPartTrackProcessed) {
+				err = p.joinTrackProcessors(ctx, partTrackCount)
+				if err != nil {
+					return err
+				}
+				partTrackCount = 0
+			}
 		}
 	}
 
